@@ -7,6 +7,8 @@ Driver for C20.  `input.kind` selects the sub-check:
   "stats"  the statistics block of Group.ReportResults on a vector of check counts
   "track"  the real ProgressTelemetry under a scripted schedule (virtual time)
   "sim"    one run of the real simulator (child process): verdict, summary, record
+  "perform" the real transmit loader wired to the real telemetry, forced performs, verdict
+  "resave"  save → save → load through run.SetupOutput / run.LoadSimulationPlan into one directory
   "transmit" un-timed concurrent stress of the real OCR3TransmitLoader (child process)
 -/
 open Lean AutoVerif.Codec
@@ -223,6 +225,10 @@ def handleTrack (input impl : Json) : R Reply := do
   -- it is what `stepOld` does on `earlyExit`
   let tr := scriptedTrace preMs ts
   let got ← boolF impl "success"
+  let races := (natF impl "races").toOption.getD 0
+  let raceSites := (listF asStr impl "race_sites").toOption.getD []
+  let raceBuild := (boolF impl "race_build").toOption.getD false
+  let crash := (strF impl "crash").toOption.getD ""
   let model := if early then none else verdict tr
   let consumed : List (Nat × List Sel) := ts.map fun t =>
     (t.total, ((t.incs.mergeSort (fun a b => decide (a.1 ≤ b.1))).map fun (_, n) => Sel.inc n) ++ [.done])
@@ -231,9 +237,11 @@ def handleTrack (input impl : Json) : R Reply := do
   let sm := match model with
     | some v => verdictFaithful consumed v
     | none => false
-  let si := verdictFaithful consumed got
+  let si := verdictFaithful consumed got && races = 0 && crash = ""
   let late := decide (preMs ≥ 100)
-  let tags := ["track"] ++ (if late then ["late-register"] else []) ++ (if early then ["start-race"] else []) ++
+  let racesIgnored := (listF asStr impl "races_ignored").toOption.getD []
+  let tags := ["track"] ++ (if raceBuild then ["race-build"] else []) ++
+    (racesIgnored.eraseDups.map fun site => s!"ignored-go-pretty-race:{site}") ++ (if late then ["late-register"] else []) ++ (if early then ["start-race"] else []) ++
     (if ts.any (fun t => t.total = 0) then ["zero-total"] else []) ++
     (if ts.any (fun t => t.total > 0 && decide ((t.incs.map (·.2)).sum > t.total)) then ["overshoot"] else []) ++
     (if ts.any (fun t => t.total > 0 && decide ((t.incs.map (·.2)).sum = t.total)) then ["exact"] else []) ++
@@ -241,6 +249,8 @@ def handleTrack (input impl : Json) : R Reply := do
     (if want then ["expect-success"] else ["expect-failure"])
   let fail :=
     if si then ""
+    else if races ≠ 0 then s!"data race in repository code ({races}): {raceSites.eraseDups}"
+    else if crash ≠ "" then s!"progress telemetry scenario crashed: {crash}"
     else if early then
       (if got then "success reported although a counter was not satisfied (checkProgress left its loop before Render started)"
        else "failure reported although every counter was satisfied (checkProgress left its loop before Render started)")
@@ -371,6 +381,94 @@ def handleSim (input impl : Json) : R Reply := do
          fail := fail, nontrivial := true, tags := tags,
          key := s!"sim:{(strF input "name").toOption.getD ""}:{expected}:{performed}:{got}" }
 
+/-! ### "perform" -/
+
+def handlePerform (input impl : Json) : R Reply := do
+  let ups ← listFD upkeepOf input "upkeeps"
+  let logs ← listFD logOf input "logs"
+  let performs ← listFD (fun x => do pure ((← natF x "at_ms"), (← natF x "n"))) input "performs"
+  let expected := expectedPerforms ups logs
+  let err ← strF impl "err"
+  let got ← boolF impl "success"
+  let early ← boolF impl "early"
+  let t : TrackIn := { total := expected, incs := performs }
+  let model := if early then none else verdict (scriptedTrace 0 [t])
+  let sels : List Sel := ((performs.mergeSort (fun a b => decide (a.1 ≤ b.1))).map fun (_, n) => Sel.inc n) ++ [.done]
+  let consumed := [(expectedSpec ups logs, sels)]
+  let want := expectedVerdict consumed
+  let loadedPerf ← natF impl "loaded_perf"
+  let loadedTxs ← natF impl "loaded_txs"
+  let results ← natF impl "results"
+  let countsOk := loadedPerf = (performs.map (·.2)).sum && loadedTxs = performs.length && results = performs.length
+  -- the finished line of the perform counter, against `track`
+  let lines ← listF (fun j => do pure ((← strF j "msg"), (← strF j "state"), (← strF j "value"))) impl "lines"
+  let ts := track expected sels
+  let lineOk := match lines.find? (fun l => (l.1.splitOn "upkeep perform events").length > 1) with
+    | none => false
+    | some (msg, st, val) =>
+      msg = transmitNamespace expected && st = (if ts.tr.err then "fail" else "done") &&
+      (match val.toNat? with
+        | some v => v = ts.tr.value
+        | none => true)
+  let agree := err = "" && decide (model = some got) && countsOk && lineOk
+  let sm := match model with
+    | some v => verdictFaithful consumed v
+    | none => false
+  let si := err = "" && verdictFaithful consumed got && countsOk
+  let performed := (performs.map (·.2)).sum
+  let fail :=
+    if si then ""
+    else if err ≠ "" then s!"transmit loader: {err}"
+    else if !countsOk then s!"performs forced into blocks were not all loaded and recorded once: loaded {loadedTxs} transmits / {loadedPerf} results, results {results}, forced {performs.length} / {performed}"
+    else if got then s!"success reported although a counter was not satisfied ({performed} performed on chain, {expectedSpec ups logs} expected by the plan)"
+    else s!"failure reported although every counter was satisfied ({performed} performed on chain, {expectedSpec ups logs} expected by the plan)"
+  pure { agree := agree, specModel := sm, specImpl := si, fail := fail,
+         diff := if agree then "" else s!"perform: model={model} impl={got} expected={expected} performed={performed} lines={lines} counts loaded={loadedTxs}/{loadedPerf} results={results} err={err}",
+         nontrivial := true,
+         tags := ["perform"] ++ (if expected = 0 then ["negative-assert"] else ["positive-assert"]) ++
+           (if expected = 0 && !performs.isEmpty then ["negative-with-perform"] else []) ++
+           (if expected = 0 && performs.any (fun p => p.2 = 0) then ["empty-report"] else []) ++
+           (if expected > 0 && performed = expected then ["exact"] else []) ++
+           (if expected > 0 && performed + 1 = expected then ["one-short"] else []) ++
+           (if expected > 0 && decide (performed > expected) then ["overshoot"] else []) ++
+           (if want then ["expect-success"] else ["expect-failure"]) }
+
+/-! ### "resave" -/
+
+def handleResave (input impl : Json) : R Reply := do
+  let a ← planOf (← field input "plan")
+  let b ← planOf (← field input "plan2")
+  if !a.wf || !b.wf then throw "input plan does not conform to the schemas (harness error)"
+  let drift ← schemaDrift (← field impl "schema")
+  let err1 ← strF impl "err1"
+  let err2 ← strF impl "err2"
+  let decKind ← strF impl "dec_err"
+  let decIdx ← natF impl "dec_idx"
+  let size1 ← natF impl "size1"
+  let size2 ← natF impl "size2"
+  let fileSize ← natF impl "file_size"
+  -- model: the second save truncates, so the file is the second plan's encoding
+  let modelLoaded := decode (encode b)
+  let implLoaded : Except DecErr Plan ←
+    if err1 ≠ "" || err2 ≠ "" then pure (.error .notObject)
+    else if decKind = "" then (do pure (.ok (← planOf (← field impl "decoded"))))
+    else pure (.error (match decKind with
+      | "unrecognized" => .unrecognized decIdx | "event" => .event decIdx | "typed" => .typed decIdx | _ => .notObject))
+  let agree := decide (modelLoaded = implLoaded) && drift.isEmpty && fileSize = size2
+  let sm := roundtripOk b modelLoaded
+  let si := roundtripOk b implLoaded && fileSize = size2
+  let fail :=
+    if si then ""
+    else if err1 ≠ "" || err2 ≠ "" then s!"saving the plan into the output directory failed: {err1}{err2}"
+    else match implLoaded with
+      | .error _ => s!"a plan saved over an older plan in the same output directory cannot be loaded back ({(strF impl "dec_msg").toOption.getD ""}); file has {fileSize} bytes, the plan {size2}, the older plan {size1}"
+      | .ok _ => if fileSize ≠ size2 then s!"simulation_plan.json keeps bytes of the older plan: {fileSize} bytes for a plan of {size2} (older plan {size1})"
+                 else "plan loaded from the output directory differs from the plan saved last"
+  pure { agree := agree, specModel := sm, specImpl := si, fail := fail,
+         diff := if agree then "" else s!"resave: model={showLoaded modelLoaded} impl={showLoaded implLoaded} sizes {size1} → {size2}, file {fileSize} drift={drift}",
+         nontrivial := decide (size2 < size1),
+         tags := ["resave"] ++ (if size2 < size1 then ["second-shorter"] else if size2 = size1 then ["same-length"] else ["second-longer"]) }
+
 /-! ### "transmit" -/
 
 def handleTransmit (input impl : Json) : R Reply := do
@@ -415,6 +513,8 @@ def handle (input impl : Json) : R Reply := do
   | "track" => handleTrack input impl
   | "sim" => handleSim input impl
   | "transmit" => handleTransmit input impl
+  | "perform" => handlePerform input impl
+  | "resave" => handleResave input impl
   | k => throw s!"unknown C20 case kind {k}"
 
 end AutoVerif.C20
